@@ -198,6 +198,14 @@ ETop ==
   /\ <<Ev.v, Ev.i>> = ResTag(S, Root)
   /\ AllShutSeen
 
+(* a run that hangs is what the specification predicts exactly when the      *)
+(* configuration is outside the hypothesis of C03 (a handler that never      *)
+(* returns under shutdown_timeout=None, a never-ending regular job without   *)
+(* timeout, ...) and the specification is stuck in the same way              *)
+ETopHang ==
+  /\ Is("top") /\ Once("top", Root) /\ Same
+  /\ Ev.v = "deadlock" /\ Stuck(cfg, S) /\ ~Admissible(cfg)
+
 ELeftover ==
   /\ Is("leftover") /\ KeepM /\ Same
   /\ Terminated(cfg, S) /\ Marked("top", Root) /\ Ev.i = 0
@@ -206,7 +214,7 @@ Logged ==
   /\ l' = l + 1
   /\ \/ ERunBegin \/ EStart \/ EEnd \/ ERaise \/ ECancel \/ ERecancel \/ ECancelDone
      \/ ESshut \/ ESshutRet \/ ESshutCancel \/ ERunEnd \/ ERunExc \/ EDiag
-     \/ EShut \/ EShutDone \/ EShutCancel \/ ETick \/ ESnap \/ ETop \/ ELeftover \/ EStall \/ EShutCancelDone \/ EUserCancel
+     \/ EShut \/ EShutDone \/ EShutCancel \/ ETick \/ ESnap \/ ETop \/ ETopHang \/ ELeftover \/ EStall \/ EShutCancelDone \/ EUserCancel
 
 Silent ==
   /\ l' = l /\ KeepM /\ Has
